@@ -5,6 +5,7 @@ assertions yield exactly their payload.
 import Rpki.Proofs.SlurmLemmas
 import Rpki.Proofs.PrefixOrder
 import Rpki.Proofs.JsonTextTyped
+import Rpki.Proofs.JsonReadLemmas
 namespace Rpki.C15
 open Rpki.Slurm Rpki.Prefix Rpki.Consts
 
@@ -86,6 +87,19 @@ library on every case) is read back — text to tree, the strings under `prefix`
 file it was written for. -/
 theorem json_text_roundtrip (f : SlurmFile) (hw : f.WF) (ht : JsonText.FileTextWF f) :
     JsonText.readFile (JsonText.fileText f) = some f := JsonText.readFile_fileText f hw ht
+
+/-- **`from_str` after `to_string`.** The model of serde_json's reader (`Model/JsonRead.lean`: white
+space, every escape of RFC 8259 with surrogate pairs, the number grammar, no trailing commas, nothing
+after the value; compared with `SlurmFile::from_str` on written and on mutated texts) reads the text
+the writer model produces for a well-formed file back as that file — the statement's "serialising a
+file to JSON and parsing it back gives an equal file", on octets in both directions. -/
+theorem from_str_to_string (f : SlurmFile) (hw : f.WF) (ht : JsonText.FileTextWF f) :
+    JsonRead.readFile (JsonText.fileText f) = some f := JsonRead.readFile_fileText f hw ht
+
+/-- On what the writer produces, the serde_json reader model and the reference reader agree (for every tree). -/
+theorem readers_agree_on_written_text (j : Json) :
+    JsonRead.readText (JsonText.render j) = JsonText.parse (JsonText.render j) := by
+  rw [JsonRead.readText_render, JsonText.parse_render]
 
 /-- Files with the same text are the same file. -/
 theorem json_text_injective (f g : SlurmFile) (hf : f.WF) (hg : g.WF) (tf : JsonText.FileTextWF f)
